@@ -3,6 +3,7 @@ package main
 import (
 	"fmt"
 	"go/ast"
+	"go/token"
 	"go/types"
 	"strings"
 
@@ -21,6 +22,7 @@ func init() {
 	})
 	ruleText["R10.1"] = "in every function that calls (*Interpreter).run (Execute, importSrc), interp.frame.setrunid(interp.runid()) dominates every such call"
 	ruleText["R10.3"] = "every reflect.Select in a run-time closure has a case loaded, at execution time, from frame.done of the frame it runs in (never a cancellation case cached in per-statement state by an earlier evaluation)"
+	ruleText["R10.4"] = "the exported context-taking entry points write the same set of Interpreter fields (directly or through unexported helpers) before starting the evaluation goroutine: the cancellation state is renewed identically by all of them"
 	ruleText["R10.2"] = "in a function literal passed to reflect.MakeFunc, the id passed to newFrame is not the runid() of a frame captured at creation time (a free variable): such an id is frozen while stop() advances the interpreter's id forever"
 }
 
@@ -88,6 +90,7 @@ func runC10(c *Config, r *Report) {
 	}
 	// R10.3: blocking operations use the done case of the frame they run in.
 	c10R3(ic, r)
+	watcherPreparation(ic, r, "R10.4")
 	// R10.2
 	g := buildSGraph(ic.SP)
 	newFrame := ic.SP.Func("newFrame")
@@ -275,5 +278,93 @@ func c10R3(ic *IC, r *Report) {
 	}
 	if n < 4 {
 		r.Errorf("R10.3: only %d reflect.Select sites found", n)
+	}
+}
+
+// watcherPreparation: the exported context-taking entry points prepare the interpreter in the
+// same way before starting the evaluation goroutine (same set of Interpreter fields written,
+// directly or through an in-package helper): sibling agreement.
+func watcherPreparation(ic *IC, r *Report, rule string) {
+	interpT := ic.Pk.Types.Scope().Lookup("Interpreter")
+	if interpT == nil {
+		return
+	}
+	ist := interpT.Type().Underlying().(*types.Struct)
+	isInterpField := func(v *types.Var) bool {
+		for i := 0; i < ist.NumFields(); i++ {
+			if ist.Field(i) == v {
+				return true
+			}
+		}
+		return false
+	}
+	var fieldsWritten func(body ast.Node, until token.Pos, depth int) map[string]bool
+	fieldsWritten = func(body ast.Node, until token.Pos, depth int) map[string]bool {
+		out := map[string]bool{}
+		ast.Inspect(body, func(n ast.Node) bool {
+			if n == nil || (until.IsValid() && n.Pos() >= until) {
+				return false
+			}
+			switch x := n.(type) {
+			case *ast.FuncLit:
+				return false
+			case *ast.AssignStmt:
+				for _, l := range x.Lhs {
+					if v := selField(ic.Info, l); v != nil && isInterpField(v) {
+						out[v.Name()] = true
+					}
+				}
+			case *ast.CallExpr:
+				if f, ok := calleeOf(ic.Info, x).(*types.Func); ok && f.Pkg() == ic.Pk.Types && depth < 2 {
+					if fi := ic.G.Funcs[f]; fi != nil && fi.Decl.Body != nil && !token.IsExported(f.Name()) {
+						for k := range fieldsWritten(fi.Decl.Body, token.NoPos, depth+1) {
+							out[k] = true
+						}
+					}
+				}
+			}
+			return true
+		})
+		return out
+	}
+	prep := map[string]string{}
+	for _, name := range sortedKeys(ic.F) {
+		fi := ic.F[name]
+		if fi.Decl.Body == nil || !strings.HasPrefix(name, "Interpreter.") || !fi.Decl.Name.IsExported() {
+			continue
+		}
+		if len(callsIn(ic.Info, fi.Decl.Body, false, "interp.Interpreter.stop")) == 0 {
+			continue
+		}
+		var goPos token.Pos
+		ownNodes(fi.Decl.Body, func(n ast.Node) bool {
+			if g, ok := n.(*ast.GoStmt); ok && !goPos.IsValid() {
+				goPos = g.Pos()
+			}
+			return true
+		})
+		if !goPos.IsValid() {
+			continue
+		}
+		prep[name] = strings.Join(sortedKeys(fieldsWritten(fi.Decl.Body, goPos, 0)), ",")
+	}
+	if len(prep) < 2 {
+		r.Errorf("%s: %d context watchers found", rule, len(prep))
+		return
+	}
+	// majority value
+	count := map[string]int{}
+	for _, v := range prep {
+		count[v]++
+	}
+	best := ""
+	for v, c := range count {
+		if c > count[best] || best == "" {
+			best = v
+		}
+	}
+	for _, name := range sortedKeys(prep) {
+		r.Check(prep[name] == best, rule, name+"/preparation", ic.pos(ic.F[name].Decl.Pos()), "prepares {"+prep[name]+"} before starting the evaluation, like its siblings",
+			name+" prepares the interpreter fields {"+prep[name]+"} before starting the evaluation while its sibling entry points prepare {"+best+"}: the cancellation state (done channel, cancellation case, mode) installed for this entry point differs, so a state left by an earlier cancelled evaluation is reused")
 	}
 }
